@@ -20,9 +20,46 @@ fn real_lit(r: &mut R) -> J { let pool = [0.0, 1.0, 1.5, -0.25, 2.5, 0.5, 3.0, -
 fn text_lit(r: &mut R) -> J { let pool = ["", "a", "b", "aa", "Ab", "12", "-3", "1.5", "x y", "true", "é"]; lit(json!({"t": "text", "s": pool[r.gen_range(0..pool.len())].chars().map(|c| c as u32).collect::<Vec<_>>()})) }
 fn bool_lit(r: &mut R) -> J { lit(json!({"t": "bool", "v": r.gen_bool(0.5)})) }
 
+fn ts_lit(r: &mut R) -> J {
+    let pool: [[i64; 7]; 7] = [[2021, 3, 4, 5, 6, 7, 0], [2021, 3, 4, 5, 6, 7, 500000], [2021, 3, 4, 5, 6, 7, 500001], [2020, 2, 29, 23, 59, 59, 0], [1999, 12, 31, 23, 59, 59, 999000],
+                               [2021, 3, 28, 2, 30, 0, 0], [1970, 1, 1, 0, 0, 0, 0]];
+    lit(json!({"t": "ts", "f": pool[r.gen_range(0..pool.len())]}))
+}
+fn iv_text(r: &mut R) -> J {
+    let pool = ["1:30:00", "0:0:1", "24:00:00", "-1:0:0", "0:90:0", "100:0:0", "1:2", "x", "0:0:0"];
+    json!({"op": "cast", "a": lit(json!({"t": "text", "s": pool[r.gen_range(0..pool.len())].chars().map(|c| c as u32).collect::<Vec<_>>()})), "ty": "interval"})
+}
+fn small_int(r: &mut R, lo: i64, hi: i64) -> J { lit(jint(r.gen_range(lo..=hi))) }
+fn gen_ts(r: &mut R, d: u32) -> J {
+    if d == 0 || r.gen_bool(0.3) { return if r.gen_bool(0.1) { lit(null()) } else { ts_lit(r) }; }
+    match r.gen_range(0..7) {
+        0 => json!({"op": "arith", "f": (pick(r, &["+", "-"])), "a": gen_ts(r, d - 1), "b": gen_iv(r, d - 1)}),
+        1 => json!({"op": "arith", "f": "+", "a": gen_iv(r, d - 1), "b": gen_ts(r, d - 1)}),
+        2 => { let part = pick(r, &["year", "month", "day", "hour", "minute", "second", "milliseconds", "week"]);
+               json!({"op": "call", "f": "date_trunc", "args": [lit(json!({"t": "text", "s": part.chars().map(|c| c as u32).collect::<Vec<_>>()})), gen_ts(r, d - 1)]}) }
+        3 => json!({"op": "call", "f": "make_timestamp", "args": [small_int(r, 2019, 2022), small_int(r, 0, 13), small_int(r, 0, 32), small_int(r, 0, 24), small_int(r, 0, 60), small_int(r, 0, 60), small_int(r, 0, 3)]}),
+        4 => json!({"op": "call", "f": (pick(r, &["least", "greatest"])), "args": [gen_ts(r, d - 1), gen_ts(r, d - 1)]}),
+        5 => { let t = pick(r, &["2021-03-04 05:06:07", "2021-02-30 00:00:00", "2021-03-04", "yesterday", "2020-02-29 23:59:59"]);
+               json!({"op": "cast", "a": lit(json!({"t": "text", "s": t.chars().map(|c| c as u32).collect::<Vec<_>>()})), "ty": "timestamp"}) }
+        _ => json!({"op": "case", "cl": [[gen_bool(r, d - 1), gen_ts(r, d - 1)]], "el": gen_ts(r, d - 1)})
+    }
+}
+fn gen_iv(r: &mut R, d: u32) -> J {
+    if d == 0 || r.gen_bool(0.4) { return iv_text(r); }
+    match r.gen_range(0..4) {
+        0 => json!({"op": "arith", "f": "-", "a": gen_ts(r, d - 1), "b": gen_ts(r, d - 1)}),
+        1 => json!({"op": "arith", "f": (pick(r, &["+", "-", "*"])), "a": gen_iv(r, d - 1), "b": gen_iv(r, d - 1)}),
+        2 => json!({"op": "call", "f": "abs", "args": [gen_iv(r, d - 1)]}),
+        _ => json!({"op": "call", "f": (pick(r, &["least", "greatest"])), "args": [gen_iv(r, d - 1), gen_iv(r, d - 1)]})
+    }
+}
+
 fn gen_int(r: &mut R, d: u32) -> J {
     if d == 0 || r.gen_bool(0.25) { return match r.gen_range(0..6) { 0 => json!({"op": "col", "name": "v"}), 1 => lit(null()), 2 => json!({"op": "col", "name": "t.v"}), _ => int_lit(r) }; }
-    match r.gen_range(0..9) {
+    match r.gen_range(0..12) {
+        9 => json!({"op": "call", "f": (pick(r, &["extract_year", "extract_month", "extract_day", "extract_hour", "extract_minute", "extract_second"])), "args": [gen_ts(r, d - 1)]}),
+        10 => json!({"op": "call", "f": "pow", "args": [gen_int(r, d - 1), small_int(r, -1, 5)]}),
+        11 => json!({"op": "cast", "a": gen_iv(r, d - 1), "ty": "int"}),
         0..=3 => json!({"op": "arith", "f": (pick(r, &["+", "-", "*", "/"])), "a": gen_int(r, d - 1), "b": gen_int(r, d - 1)}),
         4 => json!({"op": "neg", "a": gen_int(r, d - 1)}),
         5 => json!({"op": "call", "f": (pick(r, &["abs", "length", "array_length"])), "args": [match r.gen_range(0..3) { 0 => gen_int(r, d - 1), 1 => gen_text(r, d - 1), _ => gen_arr(r, d - 1) }]}),
@@ -43,7 +80,9 @@ fn gen_arr(r: &mut R, d: u32) -> J {
 }
 fn gen_text(r: &mut R, d: u32) -> J {
     if d == 0 || r.gen_bool(0.3) { return match r.gen_range(0..5) { 0 => json!({"op": "col", "name": "k"}), 1 => lit(null()), 2 => json!({"op": "col", "name": "input"}), _ => text_lit(r) }; }
-    match r.gen_range(0..4) {
+    match r.gen_range(0..6) {
+        4 => json!({"op": "cast", "a": gen_ts(r, d - 1), "ty": "text"}),
+        5 => json!({"op": "cast", "a": gen_iv(r, d - 1), "ty": "text"}),
         0 => json!({"op": "call", "f": (pick(r, &["upper", "lower"])), "args": [gen_text(r, d - 1)]}),
         1 => json!({"op": "cast", "a": gen_int(r, d - 1), "ty": "text"}),
         2 => json!({"op": "case", "cl": [[gen_bool(r, d - 1), gen_text(r, d - 1)]], "el": gen_text(r, d - 1)}),
@@ -52,7 +91,11 @@ fn gen_text(r: &mut R, d: u32) -> J {
 }
 fn gen_real(r: &mut R, d: u32) -> J {
     if d == 0 || r.gen_bool(0.4) { return real_lit(r); }
-    match r.gen_range(0..4) {
+    match r.gen_range(0..8) {
+        4 => json!({"op": "call", "f": "sqrt", "args": [gen_real(r, d - 1)]}),
+        5 => json!({"op": "call", "f": "pow", "args": [gen_real(r, d - 1), lit(jreal([0.0, 1.0, 2.0, 3.0, 0.5][r.gen_range(0..5)]))]}),
+        6 => json!({"op": "call", "f": "extract_epoch", "args": [gen_ts(r, d - 1)]}),
+        7 => json!({"op": "cast", "a": gen_iv(r, d - 1), "ty": "real"}),
         0..=1 => json!({"op": "arith", "f": (pick(r, &["+", "-", "*"])), "a": gen_real(r, d - 1), "b": gen_real(r, d - 1)}),
         2 => json!({"op": "neg", "a": gen_real(r, d - 1)}),
         _ => json!({"op": "cast", "a": gen_text(r, d - 1), "ty": "real"})
@@ -61,7 +104,13 @@ fn gen_real(r: &mut R, d: u32) -> J {
 fn gen_bool(r: &mut R, d: u32) -> J {
     if d == 0 || r.gen_bool(0.15) { return if r.gen_bool(0.2) { lit(null()) } else { bool_lit(r) }; }
     let cmp = (pick(r, &["=", "!=", "<", "<=", ">", ">="]));
-    match r.gen_range(0..10) {
+    match r.gen_range(0..14) {
+        10 => json!({"op": "cmp", "f": cmp, "a": gen_ts(r, d - 1), "b": gen_ts(r, d - 1)}),
+        11 => { let t = pick(r, &["2021-03-04 05:06:07", "2021-03-04 05:06:08", "2021-3-4", "never"]);
+                json!({"op": "cmp", "f": cmp, "a": gen_ts(r, d - 1), "b": lit(json!({"t": "text", "s": t.chars().map(|c| c as u32).collect::<Vec<_>>()}))}) }
+        12 => json!({"op": "cmp", "f": cmp, "a": gen_iv(r, d - 1), "b": gen_iv(r, d - 1)}),
+        13 => { let p = pick(r, &["a", "^a", "b$", "^ab$", "(", "x y", "", "[a"]);
+                json!({"op": "call", "f": "regex_matches", "args": [gen_text(r, d - 1), lit(json!({"t": "text", "s": p.chars().map(|c| c as u32).collect::<Vec<_>>()}))]}) }
         0..=2 => json!({"op": "cmp", "f": cmp, "a": gen_int(r, d - 1), "b": gen_int(r, d - 1)}),
         3 => json!({"op": "cmp", "f": cmp, "a": gen_text(r, d - 1), "b": gen_text(r, d - 1)}),
         4 => json!({"op": "cmp", "f": cmp, "a": gen_int(r, d - 1), "b": gen_real(r, d - 1)}),
@@ -78,14 +127,15 @@ pub fn trace(seed: u64, n: usize) -> Vec<J> {
     let tables = setup_tables(&sql::table_defs("plain")).unwrap();
     let mut ev = Vec::new();
     for i in 0..n {
-        let e = match rng.gen_range(0..6) { 0..=1 => gen_int(&mut rng, 3), 2..=3 => gen_bool(&mut rng, 3), 4 => gen_text(&mut rng, 3), _ => gen_real(&mut rng, 2) };
+        let e = match rng.gen_range(0..8) { 0..=1 => gen_int(&mut rng, 3), 2..=3 => gen_bool(&mut rng, 3), 4 => gen_text(&mut rng, 3), 5 => gen_real(&mut rng, 2), 6 => gen_ts(&mut rng, 2), _ => gen_iv(&mut rng, 2) };
         // occasionally a deliberate type error or unknown column at the root
         let e = if rng.gen_bool(0.05) { json!({"op": "arith", "f": "+", "a": e, "b": text_lit(&mut rng)}) } else if rng.gen_bool(0.02) { json!({"op": "col", "name": "nosuch"}) } else { e };
         let k = [json!({"t": "null"}), json!({"t": "text", "s": [97]}), json!({"t": "text", "s": [98, 99]})][rng.gen_range(0..3)].clone();
         let v = [json!({"t": "null"}), jint(0), jint(1), jint(-7), jint(42)][rng.gen_range(0..5)].clone();
         let line = json!({"kind": "kv", "k": k, "v": v});
         let text = sql::line_text(&line);
-        let query = format!("SELECT {} AS r FROM t", sql::expr(&e));
+        // every third statement is written with the fewest parentheses the standard precedence allows (what a user types)
+        let query = format!("SELECT {} AS r FROM t", if i % 3 == 2 { sql::expr_min(&e) } else { sql::expr(&e) });
         tick(&json!({"i": i, "query": query}));
         let env = json!({"k": k, "v": v, "t.k": k, "t.v": v, "input": {"t": "text", "s": text.chars().map(|c| c as u32).collect::<Vec<_>>()}});
         if k["t"] == "null" && v["t"] == "null" { continue; }        // not a row
